@@ -5,6 +5,10 @@ import (
 	"fmt"
 	"sort"
 	"strings"
+	"time"
+
+	pebbles "github.com/buildbuildio/pebbles"
+	"github.com/buildbuildio/pebbles/merger"
 
 	"github.com/buildbuildio/pebbles/common"
 	"github.com/buildbuildio/pebbles/executor"
@@ -100,6 +104,24 @@ func c01Check(ctx *Ctx, idx int, cs coreCase) {
 			Case: full, Impl: got, Model: map[string]interface{}{"reference": want}, Index: idx})
 		return
 	}
+	// ---- configurations that must not change results: node-hiding merger, id-to-type hint,
+	// caching planner, small downstream batches, permuted service list
+	for _, alt := range c01Configs(cf, cs, idx) {
+		gw2, err := cf.F.NewGateway(alt.cfg)
+		if err != nil {
+			ctx.Rep.Fail(hx.Failure{Kind: "property-fails", Detail: "configuration " + alt.name + ": the gateway no longer starts: " + err.Error(), Case: full, Index: idx})
+			return
+		}
+		for rep := 0; rep < alt.reps; rep++ {
+			r2 := fed.Do(gw2, cs.Query, cs.Vars, cs.OpName)
+			if len(r2.Errors) > 0 || hx.Canon(toGeneric(r2.Data)) != hx.Canon(toGeneric(resp.Data)) {
+				ctx.Rep.Fail(hx.Failure{Kind: "property-fails", Detail: "configuration " + alt.name + " changes the response", Case: full,
+					Impl: map[string]interface{}{"default": json.RawMessage(resp.Raw), alt.name: json.RawMessage(r2.Raw)}, Index: idx})
+				return
+			}
+		}
+		ctx.Rep.Count("config:" + alt.name)
+	}
 	if ctx.Driver == nil {
 		return
 	}
@@ -169,6 +191,44 @@ func c01Check(ctx *Ctx, idx int, cs coreCase) {
 	if strings.Join(mcalls, "\n") != strings.Join(calls, "\n") {
 		ctx.Rep.Fail(hx.Failure{Kind: "model-mismatch", Detail: "the multiset of sub-requests differs between the real gateway and Model.gateway", Case: full, Impl: calls, Model: mcalls, Index: idx})
 	}
+}
+
+type c01Alt struct {
+	name string
+	cfg  fed.GatewayConfig
+	reps int
+}
+
+// idTypeHint is a sound GetParentTypeFromIDFunc for generated plain ids ("N0_3" ↦ "N0").
+func idTypeHint(id interface{}) (string, bool) {
+	s, ok := id.(string)
+	if !ok {
+		return "", false
+	}
+	i := strings.LastIndex(s, "_")
+	if i <= 0 {
+		return "", false
+	}
+	return s[:i], true
+}
+
+func c01Configs(cf *coreFed, cs coreCase, idx int) []c01Alt {
+	alts := []c01Alt{
+		{"id-hint", fed.GatewayConfig{Options: []pebbles.GatewayOption{pebbles.WithGetParentTypeFromIDFunc(idTypeHint)}}, 1},
+		{"cached-planner", fed.GatewayConfig{Options: []pebbles.GatewayOption{pebbles.WithPlanner(planner.NewCachedPlanner(time.Hour))}}, 2},
+		{"max-batch-" + fmt.Sprint(1+idx%3), fed.GatewayConfig{MaxBatch: 1 + idx%3}, 1},
+	}
+	if !strings.Contains(cs.Query, "node(") {
+		alts = append(alts, c01Alt{"node-hiding-merger", fed.GatewayConfig{Options: []pebbles.GatewayOption{pebbles.WithMerger(merger.SanitizeNodeMergerFunc(nil))}}, 1})
+	}
+	if n := len(cf.F.Services); n > 1 {
+		ord := make([]int, n)
+		for i := range ord {
+			ord[i] = (i + 1 + idx%(n-1)) % n
+		}
+		alts = append(alts, c01Alt{"rotated-service-list", fed.GatewayConfig{URLOrder: ord}, 1})
+	}
+	return alts
 }
 
 // coreClass: narrow known-finding classes (input class ∧ failure mode).
